@@ -99,7 +99,7 @@ def norm(data: bytes) -> bytes:
     return data.replace(b'\r\n', b'\n')
 
 
-def recover(image: str, layout: str, what: str):
+def recover(image: str, layout: str, what: str, active: bool = False):
     """Start a brand-new backend on the crash image and read everything."""
     cfg = {'backend': 'maildir', 'users': [USER], 'layout': layout,
            'scratch_dir': image, 'skip_users': True, 'keep_scratch': True,
@@ -177,8 +177,31 @@ def recover(image: str, layout: str, what: str):
                                      frozenset(canon_flag(f) for f in
                                                r.data.get(b'FLAGS') or ())))
             out['boxes'][name] = {'uidvalidity': sel.get('uidvalidity'),
+                                  'uidnext': sel.get('uidnext'),
                                   'msgs': msgs}
             do({'kind': 'close'})
+        if active:
+            # life goes on: one new message per mailbox; where does it land?
+            for k, name in enumerate(sorted(out['boxes'])):
+                marker = 9000 + k
+                c = patient({'kind': 'append', 'mailbox': name,
+                             'literal': 'litplus',
+                             'msgs': [{'data': make_message(marker),
+                                       'token': marker}]})
+                code = c.result.code if c is not None and c.result is not None \
+                    else None
+                if c is None or not c.ok or not code \
+                        or code[0] != b'APPENDUID':
+                    out['boxes'][name]['append'] = (
+                        None, repr(c and c.result))
+                    continue
+                out['boxes'][name]['append'] = (code[1][0], code[1][1][0])
+                c = patient({'kind': 'status', 'mailbox': name,
+                             'items': ['MESSAGES', 'UIDNEXT']})
+                st = [r for r in (c.untagged if c is not None else ())
+                      if r.name == b'STATUS']
+                if st:
+                    out['boxes'][name]['status_after'] = dict(st[0].data[1])
         for v in ctx.violations:
             if v['property'] == 'C06':
                 out['problems'].append(('serverbug', 'server error during '
@@ -259,7 +282,52 @@ def judge(rec: dict, before: dict, after: dict, ledger: dict, sent: dict,
     return None
 
 
-def run_crash(case: dict, trace: bool = False) -> dict:
+def judge_uids(rec: dict, ledger: dict, uidvals: dict, what: str):
+    """C04 across a restart: UIDNEXT above every UID there is, and the next
+    message gets a UID above every UID that was ever acknowledged in this
+    UIDVALIDITY, expunged ones included."""
+    if rec['problems']:
+        return None         # C15's business
+    for name, box in sorted(rec['boxes'].items()):
+        uids = [m[0] for m in box['msgs']]
+        nxt = box.get('uidnext')
+        if nxt is not None and uids and nxt <= max(uids):
+            return 'restart.uidnext-low', '%s: after restart %r reports ' \
+                'UIDNEXT %d while UID %d exists' % (what, name, nxt,
+                                                    max(uids))
+        same_validity = uidvals.get(name) is not None and \
+            box['uidvalidity'] == uidvals.get(name)
+        app = box.get('append')
+        if app is None or app[0] is None:
+            continue
+        validity, uid = app
+        if validity != box['uidvalidity']:
+            continue
+        if uids and uid <= max(uids):
+            return 'restart.uid-reused', '%s: after restart a new message ' \
+                'in %r got UID %d although UID %d exists' % (
+                    what, name, uid, max(uids))
+        if nxt is not None and uid < nxt:
+            return 'restart.uidnext-high', '%s: after restart %r reported ' \
+                'UIDNEXT %d and then assigned UID %d' % (what, name, nxt,
+                                                         uid)
+        if same_validity:
+            ever = [u for (n, u) in ledger if n == name]
+            if ever and uid <= max(ever):
+                return 'restart.uid-reused', '%s: after restart a new ' \
+                    'message in %r got UID %d, but UID %d had been ' \
+                    'acknowledged in this UIDVALIDITY before (expunged or ' \
+                    'moved since)' % (what, name, uid, max(ever))
+        after = box.get('status_after') or {}
+        if after.get(b'UIDNEXT') is not None and \
+                after[b'UIDNEXT'] <= uid:
+            return 'restart.uidnext-low', '%s: after restart and one APPEND ' \
+                '(UID %d) STATUS %r reports UIDNEXT %d' % (
+                    what, uid, name, after[b'UIDNEXT'])
+    return None
+
+
+def run_crash(case: dict, trace: bool = False, prop: str = 'C15') -> dict:
     only = case.get('only_image')
     ctx = Ctx(case, trace=trace)
     world = ctx.world
@@ -271,6 +339,7 @@ def run_crash(case: dict, trace: bool = False) -> dict:
     model.keyword_boxes = {'INBOX'}
     subscribed: set = set()
     ledger: dict = {}       # (mailbox, uid) -> token, every UID ever acked
+    ledger_at: dict = {}    # (mailbox, uid) -> index of the command that did
     sent: dict = {}         # token -> bytes
     uidvals: dict = {}
     states = []
@@ -327,10 +396,15 @@ def run_crash(case: dict, trace: bool = False) -> dict:
                 if act['kind'] in ('select', 'examine'):
                     sel = cl.shadow.selected or {}
                     uidvals[act['mailbox']] = sel.get('uidvalidity')
+                code = cmd.result.code
+                if act['kind'] == 'append' and code \
+                        and code[0] == b'APPENDUID':
+                    uidvals[act['mailbox']] = code[1][0]
             for name, box in model.boxes.items():
                 for m in box.msgs:
                     if m.uid is not None:
                         ledger.setdefault((name, m.uid), m.token)
+                        ledger_at.setdefault((name, m.uid), i)
             states.append(model_state(model, subscribed))
             if cl.conn.done:
                 # e.g. BYE after the selected mailbox was renamed away
@@ -358,14 +432,20 @@ def run_crash(case: dict, trace: bool = False) -> dict:
                           case['steps'][j]['actions'][0]['kind'].upper()
                           if 0 <= j < len(case['steps']) else 'end') \
                 if idx >= 0 else 'clean stop after the last command'
-            rec = recover(path, layout, what)
+            rec = recover(path, layout, what, active=prop == 'C04')
             checked += 1
-            verdict = judge(rec, before, after, ledger, sent, uidvals, what)
+            if prop == 'C04':
+                verdict = judge_uids(rec, {k: v for k, v in ledger.items()
+                                           if ledger_at[k] < j},
+                                     uidvals, what)
+            else:
+                verdict = judge(rec, before, after, ledger, sent, uidvals,
+                                what)
             shutil.rmtree(path, ignore_errors=True)
             if verdict is not None:
                 clause, detail = verdict
                 violations.append(Violation(
-                    property='C15', clause=clause, detail=detail,
+                    property=prop, clause=clause, detail=detail,
                     sig={'backend': 'maildir', 'layout': layout,
                          'op': op.split('-')[0], 'xdev': bool(
                              case['config'].get('cross_device_tmp'))},
